@@ -110,12 +110,15 @@ def step (s : S) (line : String) : S × String :=
   | ["tick", i] =>
     match liveNode s i with
     | some (_, sl) =>
+      -- the periodic rounds exist from the moment the node has joined (either path)
+      if sl.node.self.st = .joining then (s, "not-scheduled") else
       let t := sortBy (fun a b => decide (a ≤ b)) ((targets sl.node).map toString)
       (s, if t.isEmpty then "-" else joinWith "," t)
     | none => (s, "bad-op")
   | ["fd", i] =>
     match liveNode s i with
     | some (k, sl) =>
+      if sl.node.self.st = .joining then (s, "not-scheduled") else
       let n := fdTick sl.node s.now
       (setSlot s k { sl with node := n }, viewTok n.mem)
     | none => (s, "bad-op")
